@@ -135,6 +135,7 @@ func fingerprintDocument(doc *ast.Document, op *ast.OperationDefinition, operati
 	w.writeString(operationName)
 	w.writeByte(0)
 	w.writeVariableDefs(op.VariableDefinitions)
+	w.writeDirectives(op.Directives)
 	w.writeSelectionSet(op.SelectionSet)
 	return strconv.FormatUint(h.Sum64(), 16)
 }
@@ -172,9 +173,36 @@ func (w *fingerprintWriter) writeVariableDefs(defs []*ast.VariableDefinition) {
 		w.writeString(d.Variable.Name.Value)
 		w.writeByte(':')
 		w.writeType(d.Type)
+		if d.DefaultValue != nil {
+			w.writeByte('=')
+			w.writeValue(d.DefaultValue)
+		}
 		w.writeByte(',')
 	}
 	w.writeByte(')')
+}
+
+// writeDirectives hashes the directives of a node: they decide whether (and
+// how) the node contributes to the response, so they are part of the key.
+func (w *fingerprintWriter) writeDirectives(dirs []*ast.Directive) {
+	for _, d := range dirs {
+		if d == nil || d.Name == nil {
+			continue
+		}
+		w.writeByte('@')
+		w.writeString(d.Name.Value)
+		w.writeByte('(')
+		for _, a := range d.Arguments {
+			if a == nil || a.Name == nil {
+				continue
+			}
+			w.writeString(a.Name.Value)
+			w.writeByte('=')
+			w.writeValue(a.Value)
+			w.writeByte(',')
+		}
+		w.writeByte(')')
+	}
 }
 
 func (w *fingerprintWriter) writeType(t ast.Type) {
@@ -221,6 +249,7 @@ func (w *fingerprintWriter) writeSelectionSet(sel *ast.SelectionSet) {
 				}
 				w.writeByte(')')
 			}
+			w.writeDirectives(s.Directives)
 			w.writeSelectionSet(s.SelectionSet)
 			w.writeByte(';')
 		case *ast.InlineFragment:
@@ -228,12 +257,14 @@ func (w *fingerprintWriter) writeSelectionSet(sel *ast.SelectionSet) {
 			if s.TypeCondition != nil && s.TypeCondition.Name != nil {
 				w.writeString(s.TypeCondition.Name.Value)
 			}
+			w.writeDirectives(s.Directives)
 			w.writeSelectionSet(s.SelectionSet)
 			w.writeByte(';')
 		case *ast.FragmentSpread:
 			w.writeString("...")
 			if s.Name != nil {
 				w.writeString(s.Name.Value)
+				w.writeDirectives(s.Directives)
 				w.writeByte(';')
 				w.writeFragmentBody(s.Name.Value)
 			}
@@ -258,6 +289,7 @@ func (w *fingerprintWriter) writeFragmentBody(name string) {
 	if frag.TypeCondition != nil && frag.TypeCondition.Name != nil {
 		w.writeString(frag.TypeCondition.Name.Value)
 	}
+	w.writeDirectives(frag.Directives)
 	w.writeSelectionSet(frag.SelectionSet)
 }
 
